@@ -359,7 +359,10 @@ class Injector:
         self.b.count('fault.%s-api' % kind)
         try:
             if kind == 'dabt':
-                r.take_data_abort_exception(DataAbortException(DAbort.ALIGNMENT if align else DAbort.PERMISSION, False))
+                # (a second-stage abort only exists for Non-secure PL1/PL0 accesses with the Virtualization Extensions; the instruction path ends
+                # in an unimplemented hook first, so the API is the only way to reach its entry)
+                s2 = bool(self.cfg.get('have_virt_ext') and r.scr.value & 1 and (r.cpsr.value & 0x1F) not in (0x16, 0x1a) and self.rng.random() < 0.5)
+                r.take_data_abort_exception(DataAbortException(DAbort.ALIGNMENT if align else DAbort.PERMISSION, s2))
             else:
                 {'svc': r.take_svc_exception, 'und': r.take_undef_instr_exception, 'smc': r.take_smc_exception,
                  'hyptrap': r.take_hyp_trap_exception}[kind]()
